@@ -52,10 +52,10 @@ func PathSafe(id string) bool {
 }
 
 // MapStep is the inductive step of "the back end behaves as a typed key-value map": from an arbitrary pre-state of
-// two stored entries (any types, arbitrary ids and contents; the second may overwrite the first), ONE arbitrary
+// `pre` stored entries (any types, arbitrary ids and contents; the second may overwrite the first), ONE arbitrary
 // operation is run on the real back end and compared with a reference map. storeOnce: the back end refuses to
 // overwrite node records (and root sets).
-func MapStep(ctx context.Context, st nodeenrollment.Storage, storeOnce bool) {
+func MapStep(ctx context.Context, st nodeenrollment.Storage, storeOnce bool, pre int) {
 	var ref []mapRef
 	find := func(kind int, id string) int {
 		for i := range ref {
@@ -66,7 +66,7 @@ func MapStep(ctx context.Context, st nodeenrollment.Storage, storeOnce bool) {
 		return -1
 	}
 	once := func(kind int) bool { return storeOnce && kind == 1 }
-	for n := 0; n < 2; n++ {
+	for n := 0; n < pre; n++ {
 		k, id, mk := vf.Int("pre-kind", 0, 3), vf.String("pre-id", 6), vf.String("pre-marker", 6)
 		vf.Assume(PathSafe(id))
 		err := st.Store(ctx, Msg(k, id, mk))
